@@ -133,7 +133,11 @@ class LowerCompoundAlgebra(MultiFunction):
         # o = curl a = "cross(nabla, a)"              if a.ufl_shape == (3,)
         def c(i, j):
             """A component of curl."""
-            return a[j].dx(i) - a[i].dx(j)
+            # Differentiate the whole operand and pick components afterwards: a[j] of a list
+            # tensor may be a literal, which has no geometric dimension and cannot be
+            # differentiated on its own.
+            Da = Grad(a)
+            return Da[j, i] - Da[i, j]
 
         sh = a.ufl_shape
         if sh == ():
